@@ -94,4 +94,62 @@ Proof.
   eexists. split; [vm_compute; reflexivity|]. split; vm_compute; reflexivity.
 Qed.
 
+(* step 3: back to the table format, over the stream section *)
+Definition mx_d3 : doc := Eval vm_compute in match load mx_F3 with LOk d _ => d | _ => ex_d end.
+Lemma mx_load3 : load mx_F3 = LOk mx_d3 XTStream.
+Proof. vm_compute. reflexivity. Qed.
+
+Definition mx_prev3 : xdoc := {| xd_doc := mx_d3; xd_start := io_start (inc_save mx_s2); xd_type := XTable |}.
+Definition mx_edits3 : list edit := [ESet (2, 0) (OInt 9); EAdd (OInt 11)].
+Definition mx_s3 : incdoc := fold_left apply_edit mx_edits3 (create_from mx_F3 mx_prev3).
+Definition mx_F4 : bytes := io_bytes (inc_save mx_s3).
+
+Lemma mx_nd3_eq :
+  xd_doc (i_new mx_s3) =
+  {| d_version := INC_VERSION; d_binary_mark := INC_BINARY_MARK;
+     d_trailer := [(K_Root, ORef 1 0); (Save.K_Size, OInt 6); (K_Type, OName K_XRef); (Save.K_Prev, OInt 452)];
+     d_objects := [((2, 0), OInt 9); ((6, 0), OInt 11)];
+     d_max_id := 6 |}.
+Proof. vm_compute. reflexivity. Qed.
+
+Lemma mx_nd3_rev : rev_dom (xd_doc (i_new mx_s3)).
+Proof.
+  rewrite mx_nd3_eq. constructor; cbn [d_max_id d_objects d_trailer].
+  - vm_compute. reflexivity.
+  - cbn [obj_numbers map fst increasing]. repeat split; reflexivity.
+  - apply Forall_cons; [|apply Forall_cons; [|apply Forall_nil]]; cbn [fst snd];
+      (split; [vm_compute; discriminate|]; split; [vm_compute; discriminate|]; split; [|reflexivity]; constructor; reflexivity).
+  - constructor; [repeat constructor; cbn; intuition discriminate|].
+    constructor; [cbn [snd]; constructor; vm_compute; discriminate|].
+    constructor; [cbn [snd]; constructor; reflexivity|].
+    constructor; [cbn [snd]; constructor|].
+    constructor; [cbn [snd]; constructor; reflexivity | constructor].
+Qed.
+
+Definition mx_steps4 : list mstep := [(XTable, XTStream); (XStream, XTTable); (XTable, XTTable)].
+Definition mx_objs4 : objmap :=
+  step_objs XTable mx_objs3 (xd_doc (i_new mx_s3)) (Save.blen (mx_F3 ++ inc_lines (xd_doc (i_new mx_s3)))).
+
+(* table / table / stream / table: the newest section is a table whose Prev names a cross-reference stream whose Prev
+   names a table; the loaded max_id is max 5 6 (the table rule of C07BytesMaxId.step_max) *)
+Theorem example_mixed_back :
+  mixed_history XTTable mx_steps4 mx_F4 (io_start (inc_save mx_s3)) mx_objs4 /\
+  obj_numbers mx_objs4 = [1; 2; 3; 4; 5; 6] /\
+  lookup mx_objs4 (2, 0) = Some (OInt 9) /\ lookup mx_objs4 (3, 0) = Some (OStr (bs "newer") false) /\
+  exists d', load mx_F4 = LOk d' XTTable /\ d_objects d' = mx_objs4 /\ d_max_id d' = 6.
+Proof.
+  assert (Hk : known_deep (xd_doc (i_new mx_s3)) = false) by (vm_compute; reflexivity).
+  assert (Hlen : Save.blen (io_bytes (inc_save mx_s3)) < u32_mod) by (vm_compute; reflexivity).
+  assert (Hids : Forall (fun io : oid * obj => In (fst io) (map fst (d_objects mx_d3)) \/
+                            ~ In (fst (fst io)) (obj_numbers (d_objects mx_d3))) (d_objects (xd_doc (i_new mx_s3)))).
+  { rewrite mx_nd3_eq. cbn [d_objects].
+    apply Forall_cons; [left; right; left; reflexivity|]. apply Forall_cons; [|apply Forall_nil].
+    right. vm_compute. intros [H|[H|[H|[H|[H|[]]]]]]; discriminate H. }
+  split.
+  - exact (proj2 (mixed_edit_step _ _ _ _ _ mx_d3 XTStream XTable mx_edits3 mx_history2 mx_load3 mx_nd3_rev Hk Hlen Hids)).
+  - split; [vm_compute; reflexivity|]. split; [vm_compute; reflexivity|]. split; [vm_compute; reflexivity|].
+    eexists. split; [vm_compute; reflexivity|]. split; vm_compute; reflexivity.
+Qed.
+
 Print Assumptions example_mixed.
+Print Assumptions example_mixed_back.
